@@ -50,13 +50,14 @@ def _scn(draw):
         # a nested history whose folder name is a prefix of a sibling folder / file that has no history of its own
         base = draw(st.sampled_from(["Clips", "s", "A", "Reel1"]))
         sib = draw(st.sampled_from(["_proxy", "2", "0", ".txt", " b"]))
-        if base not in scn["tree"] and base + sib not in scn["tree"]:
+        if not ({base, base + sib} & hist.top_names_used(scn)):
             scn["tree"][base] = {"in.mov": "inside " + base}
             scn["tree"][base + sib] = {"next.mov": "beside"} if draw(st.booleans()) else "a file beside"
             scn["steps"] = [{"op": "create", "root": base, "formats": draw(gen.formats(2)), "flags": []}] + scn["steps"]
     elif extra == "big":
         # one file beyond the 1 MiB read chunk, size not a multiple of it
-        scn["tree"]["big.bin"] = [draw(st.binary(min_size=1, max_size=5)).hex(), (1 << 20) + draw(st.integers(1, 300000))]
+        if "big.bin" not in hist.top_names_used(scn):
+            scn["tree"]["big.bin"] = [draw(st.binary(min_size=1, max_size=5)).hex(), (1 << 20) + draw(st.integers(1, 300000))]
     return scn
 
 
